@@ -325,6 +325,24 @@ pub fn manyframes_case(rng: &mut Rng) -> Case {
     }
 }
 
+/// Blocks whose raw bytes exceed 256 KiB .. 768 KiB (many channels x large block sizes), both
+/// thread modes: per-block byte buffers, hash-thread messages and frame sizes beyond 2^16/2^18.
+pub fn bigblock_case(rng: &mut Rng) -> Case {
+    let channels = *rng.pick(&[5usize, 6, 7, 8, 8, 3]);
+    let bps = *rng.pick(&[16usize, 24, 24, 20, 12]);
+    let block = *rng.pick(&[10_923usize, 16_384, 20_000, 32_767, 32_767, 21_846]);
+    let len = block * rng.urange(1, 2) + if rng.flip() { rng.usize_below(block) } else { 0 };
+    let rate = gen::pick_rate(rng);
+    let mut a = gen::gen_audio(rng, channels, bps, rate, len);
+    a.recipe = format!("bigblock:{}", a.recipe);
+    let mut cfg = gen::gen_config(rng, &ConfigOpts { multithread: None, min_max_parameter: 8 });
+    cfg.multithread = rng.flip();
+    cfg.workers = NonZeroUsize::new(*rng.pick(&[1usize, 2, 4]));
+    cfg.subframe_coding.qlpc.lpc_order = cfg.subframe_coding.qlpc.lpc_order.min(8);
+    cfg.block_size = block;
+    Case { audio: Arc::new(a), cfg, block, mode: if rng.flip() { FillMode::Int } else { FillMode::Bytes }, hint: rng.flip() }
+}
+
 pub fn std_subs(ctx: &Ctx, scale_q: u64, scale_t: u64) -> Vec<Sub> {
     let n = |q: u64, t: u64| ctx.tier.pick(q * scale_q * 3 / 100, t * scale_t * 4 / 100).max(1);
     let big = ctx.tier.pick(30_000, 120_000);
@@ -337,6 +355,7 @@ pub fn std_subs(ctx: &Ctx, scale_q: u64, scale_t: u64) -> Vec<Sub> {
         Sub { name: "par", n: n(300, 15_000), gen: Box::new(|r| par_case(r, 6000)) },
         Sub { name: "large", n: n(12, 300), gen: Box::new(|r| gen_case(r, &Limits { max_samples: 300_000, max_blocks: 2, ..Limits::default() })) },
         Sub { name: "manyframes", n: n(16, 300), gen: Box::new(manyframes_case) },
+        Sub { name: "bigblock", n: n(10, 200), gen: Box::new(bigblock_case) },
     ]
 }
 
